@@ -172,17 +172,11 @@ Theorem C11_style_element_finds_svg : lookup_finds style_element_lookup ANS_Svg 
 Proof. exact style_element_finds_svg. Qed.
 Print Assumptions C11_style_element_finds_svg.
 
-(* KNOWN class singular_transform_kept: `has_valid_transform` (tiny-skia Transform::is_valid) tests the scale
-   factors, not the determinant: a non-invertible matrix such as matrix(1 2 2 4 300 300) passes, the element
-   stays in the tree (and in the bounding boxes) although SVG says it is not rendered. *)
-Theorem C11_known_singular_transform_kept_refuted : exists t, ts_det t == 0 /\ usvg_ts_valid t = true.
-Proof. exact singular_transform_refuted. Qed.
-Print Assumptions C11_known_singular_transform_kept_refuted.
-
-Theorem C11_noninvertible_is_invalid_guarded :
-  forall t, ts_det t == 0 -> singular_kept t = false -> usvg_ts_valid t = false.
-Proof. exact singular_transform_guarded. Qed.
-Print Assumptions C11_noninvertible_is_invalid_guarded.
+(* "Invalid transform" covers every non-invertible matrix (427fd1e: has_valid_transform also tests the determinant;
+   the conjuncts are cut from the source into valid_ts_tests): such an element has a_ts_valid = false and is ignorable. *)
+Theorem C11_noninvertible_is_invalid : forall t, ts_det t == 0 -> usvg_ts_valid t = false.
+Proof. exact noninvertible_is_invalid. Qed.
+Print Assumptions C11_noninvertible_is_invalid.
 
 (* ------------------------------------------------------------------ non-vacuity *)
 Definition ex_attrs : attrs :=
@@ -227,6 +221,11 @@ Proof.
   apply il_junk; [vm_compute; reflexivity|]. apply il_cons; [apply ins_same|].
   apply il_junk; [vm_compute; reflexivity|]. apply il_nil.
 Qed.
+(* the former witness matrix(1 2 2 4 300 300) is invalid, ordinary transforms stay valid *)
+Example C11_ex_singular :
+  usvg_ts_valid (from_row 1 2 2 4 300 300) = false /\ usvg_ts_valid (from_row 1 (1#2) (-(1#3)) 2 5 5) = true /\
+  usvg_ts_valid (from_row 0 0 0 0 1 1) = false.
+Proof. vm_compute. repeat split. Qed.
 Example C11_ex_prescan :
   gen_id (fun n => if (n =? 1)%N then "1" else "2") 5 "clipPath" ["clipPath1"; "vf_9"; "x"] 0 = Some ("clipPath2", 2%N).
 Proof. vm_compute. reflexivity. Qed.
